@@ -180,6 +180,11 @@ def run_case(case):
                 minus = rnd.random() < 0.6
                 iv = rnd.choice([0, 1, -1, 255, -255, 256, -256, 2 ** 31 - 1, -2 ** 31, 2 ** 31, -2 ** 31 - 1, 2 ** 32, -2 ** 32, 12345678, -12345678])
                 v = float(iv) if rnd.random() < 0.6 else float(rnd.randint(-10 ** 9, 10 ** 9))
+                if rnd.random() < 0.3:
+                    # exact powers of the base and their neighbours (a digit count computed through logarithms goes wrong exactly there)
+                    v = float(rnd.choice((1, -1)) * (base ** rnd.randint(1, 12 if base > 10 else 20) + rnd.choice((0, 0, -1, 1))))
+                    if abs(v) >= 2 ** 53:
+                        v = float(base ** 3)
                 iv = int(v)
                 what = f"base {base} format ({places} places, {'minus sign' if minus else 'two-s complement'}) of {v!r}"
                 try:
